@@ -254,9 +254,15 @@ impl Check for C16 {
         let mut files = proj.render();
         files.sort();
         if phase == "legal" {
+            let mut labels = labels;
             let mut tw = RenderTweaks::default();
             tw.reverse_imports = true;
-            let rev = proj.render_with(&RenderOpts { erase_bodies: false }, &tw);
+            let mut rev = proj.render_with(&RenderOpts { erase_bodies: false }, &tw);
+            // an extern "go" function of an imported package called through the package path
+            if d.chance(70) && projgen::add_cross_package_extern(&mut files) {
+                projgen::add_cross_package_extern(&mut rev);
+                labels.push("extern-go:called-from-importer".into());
+            }
             let mut with_stray = files.clone();
             with_stray.extend(stray_package());
             let stray = if proj.pkgs.iter().any(|p| p.name == "Omega") { Value::Null } else { patch_of(&files, &with_stray) };
